@@ -90,9 +90,20 @@ class _PinnedRandom:
         return a + (b - a) * JITTER_PIN
 
 
-def _http_date(t):
+RA_ZONES = (None, 120, -300)  # minutes east of GMT; None = the canonical "GMT" spelling
+
+
+def _http_date(t, k=0):
+    """the instant t as a date; attempt k picks the spelling: GMT, +0200, -0500 - the same instant every time
+    (urllib3 reads the field with email.utils.parsedate_tz/mktime_tz, which honour the zone; wave-6 change
+    w6_c04_m1 dropped the offset)"""
+    import datetime
     import email.utils
-    return email.utils.formatdate(t, usegmt=True)
+    z = RA_ZONES[k % len(RA_ZONES)]
+    if z is None:
+        return email.utils.formatdate(t, usegmt=True)
+    tz = datetime.timezone(datetime.timedelta(minutes=z))
+    return email.utils.format_datetime(datetime.datetime.fromtimestamp(t, tz=tz))
 
 
 # ------------------------------------------------------------------ scripted server
@@ -189,10 +200,10 @@ class ScriptServer(Server):
             return [response(503, body, headers=[("Retry-After", str(RA_SECONDS))], framing="close"), EOF]
         if s == "429d":
             rec["retry_after"] = float(RA_DATE_AHEAD)
-            return [response(429, body, headers=[("Retry-After", _http_date(self.net.now + RA_DATE_AHEAD))])]
+            return [response(429, body, headers=[("Retry-After", _http_date(self.net.now + RA_DATE_AHEAD, idx + 1))])]
         if s == "413p":
             rec["retry_after"] = 0.0  # the advertised instant has passed: nothing to wait for
-            return [response(413, body, headers=[("Retry-After", _http_date(self.net.now - RA_DATE_AHEAD))])]
+            return [response(413, body, headers=[("Retry-After", _http_date(self.net.now - RA_DATE_AHEAD, idx + 1))])]
         if s == "418ra":
             rec["retry_after"] = float(RA_SECONDS)
             return [response(418, body, headers=[("Retry-After", str(RA_SECONDS))], framing="close"), EOF]
